@@ -929,6 +929,19 @@ void reset_destruct_object_limits() {
   restrict_destruct = NULL;
 }
 
+#ifdef NEOLITH_VERIF
+/* verification accessors (read-only) */
+int neolith_verif_command_giver_stack_depth (void) {
+  return (int) (cgsp - command_giver_stack);
+}
+int neolith_verif_num_objects_this_thread (void) {
+  return num_objects_this_thread;
+}
+object_t *neolith_verif_restrict_destruct (void) {
+  return restrict_destruct;
+}
+#endif
+
 /**
  * Remove an object. It is first moved into the \c ob_list_destruct linked
  * list, and not really deallocated until later. (see destruct2()).
